@@ -21,9 +21,6 @@ BOUNDED = [
     (FS + 'eval_q_nu_3', 'production term: spec |Omega| = sqrt(Omega^2), code pi*sqrt(w^2/L^2): needs sqrt(pi^2 a) = pi sqrt(a), pi > 0; the lemma alone '
                          '(z3 0.1 s) and the rest of the identity (z3 seconds, with the sqrt factored as in the code) are provable, together not in 200 s. '
                          'No native counterexample in 20000 samples.'),
-    (FS + 'eval_q_rho_u_2', 'ret == eval_q_rho_u(x,y,0): CBMC 6.11 invariant violation (std_expr.cpp:134, constant folding of rationals) when the '
-                            '3-argument body is specialised at t = 0.0; no native counterexample'),
-    (FS + 'eval_q_rho_e_2', 'ret == eval_q_rho_e(x,y,0): same CBMC 6.11 invariant violation; no native counterexample'),
     (WB + 'update_2', 'CBMC 6.11 invariant violation on the extracted body (D2vDxy = -15/14*V/x/y with V = ...*1/14: negative non-integer rational '
                       'constant folded in a product); besides, Omega needs sqrt(c^2 a) = c sqrt(a) and the derivative members the identities below. '
                       'All 46 cached members agree with the contract on 19.5k admissible native samples.'),
